@@ -260,7 +260,7 @@ def binary_session(app, cid, steps, selfplay=None, quit_during_search=False, wat
     banner = pr.get(10.0)      # the start-up banner is free text
     dead = False
 
-    def wait_bestmove(stop_after=None, hit_after=None):
+    def wait_bestmove(stop_after=None, hit_after=None, during=None):
         nonlocal dead
         t0 = time.time()
         hit_sent = hit_after is None
@@ -269,6 +269,10 @@ def binary_session(app, cid, steps, selfplay=None, quit_during_search=False, wat
         last_msg = time.time()
         while True:
             now = time.time()
+            if during and now - t0 >= during.get("after_ms", 50) / 1000.0:
+                ev.append({"c": cid, "ev": "in", "cmd": "position", "fen": during["fen"], "moves": during.get("moves", [])})
+                pr.send("position fen %s%s" % (during["fen"], (" moves " + " ".join(during["moves"])) if during.get("moves") else ""))
+                during = None
             if not hit_sent and now - t0 >= hit_after / 1000.0:
                 ev.append({"c": cid, "ev": "in", "cmd": "ponderhit"})
                 pr.send("ponderhit")
@@ -278,7 +282,8 @@ def binary_session(app, cid, steps, selfplay=None, quit_during_search=False, wat
                 pr.send("stop")
                 stop_sent = True
             if not stop_sent:
-                line = pr.get(max(min(stop_after, hit_after if not hit_sent else stop_after) / 1000.0 - (now - t0), 0.0002))
+                nxt = min(stop_after, hit_after if not hit_sent else stop_after, during.get("after_ms", 50) if during else stop_after)
+                line = pr.get(max(nxt / 1000.0 - (now - t0), 0.0002))
                 if line == "<timeout>":
                     continue
             else:
@@ -314,7 +319,7 @@ def binary_session(app, cid, steps, selfplay=None, quit_during_search=False, wat
     def do_go(g):
         ev.append({"c": cid, "ev": "in", "cmd": "go", "searchmoves": g.get("searchmoves", []), "limited": limited(g), "params": g})
         pr.send(go_line(g))
-        return wait_bestmove(g.get("stop_after_ms"), g.get("ponderhit_after_ms"))
+        return wait_bestmove(g.get("stop_after_ms"), g.get("ponderhit_after_ms"), g.get("position_during"))
 
     for st in steps:
         if dead:
@@ -622,6 +627,15 @@ def plan_c09(wd, rng, T, mat, lite=False):
         mk(binary, "binary", bsteps)
     for g in rng.sample(heavy, min(len(heavy), 10 if T else 1)):
         mk(binary, "binary", [{"t": "position", "fen": g["fen"], "moves": []}, {"t": "quit_during_search", "after_ms": rng.choice([5, 60, 400])}])
+    # a position command that arrives while the search is running is dropped by the engine: after the interruption it still holds its own
+    for g in rng.sample(heavy, min(len(heavy), 8 if T else 2)):
+        other = rng.choice([x for x in mat.items if x["fen"] != g["fen"]])
+        steps = [{"t": "position", "fen": g["fen"], "moves": []},
+                 {"t": "go", "infinite": True, "position_during": {"after_ms": rng.choice([20, 80]), "fen": other["fen"], "moves": []}, "stop_after_ms": rng.choice([200, 400])},
+                 {"t": "probe_fen"}, {"t": "go", "depth": 1}, {"t": "fresh"},
+                 {"t": "go", "infinite": True, "stop_after_ms": 100}, {"t": "probe_fen"}, {"t": "go", "depth": 1}, {"t": "fresh"}]
+        mk(inproc, "inproc", steps)
+        mk(binary, "binary", [s for s in steps if s["t"] in ("position", "go")])
     return inproc, binary, sweeps
 
 
